@@ -112,6 +112,8 @@ def coerce_float(maybe_float: _ScalarValue) -> float:
         raise ValueError(
             "Float cannot represent non numeric value: %s" % maybe_float
         )
+    except OverflowError:
+        raise ValueError("Float cannot represent value: %s" % maybe_float)
 
     if numeric != numeric or numeric in (float("inf"), float("-inf")):
         raise ValueError(
